@@ -335,7 +335,7 @@ def node_key(cfg):
 
 
 def node_kid(cfg):
-    return 0x100 + cfg["id"]
+    return 0 if cfg["id"] == 0 else 0x100 + cfg["id"]        # the root uses the legal boundary key id 0
 
 
 def build_input(cfg, d):
